@@ -100,6 +100,9 @@ def run(tier, seed):
         variants = [("tools", dict(sgno=t["no"], cell_choice=t["setting"]), rng.randrange(1 << 30)),
                     ("tools", dict(sgname=t["name_text"]), rng.randrange(1 << 30)),
                     ("laue", dict(sgno=t["no"], cell_choice=t["setting"]), rng.randrange(1 << 30))]
+        # a plain name together with an explicit setting (rhombohedral tables: the name without its trailing r)
+        plain = t["name_text"][:-1] if t["setting"] == "rhombohedral" and t["name_text"].endswith("r") else t["name_text"]
+        variants.append((("laue", "tools")[i % 2], dict(sgname=plain, cell_choice=t["setting"]), rng.randrange(1 << 30)))
         if tier == "thorough":
             variants.append(("laue", dict(sgname=t["name_text"]), rng.randrange(1 << 30)))
         for (mod, kw, s) in variants:
